@@ -55,6 +55,8 @@ type c12Ans struct {
 	// LenMask/LenVal: the length byte of the payloads in LenMask is LenVal instead of 8
 	LenMask int `json:",omitempty"`
 	LenVal  int `json:",omitempty"`
+	// Used: the connection has completed a well-formed handshake for the same proposal before
+	Used bool `json:",omitempty"`
 }
 
 type c12Batch struct {
@@ -131,6 +133,10 @@ func c12Exec(run *ev.Run, c ev.Case) {
 		var s c12Sel
 		c.Decode(&s)
 		c12Select(run, s)
+	case "unknown-auth":
+		var su refbmc.Suite
+		c.Decode(&su)
+		c12UnknownAuth(run, su.Auth, su.Integ, su.Conf)
 	case "ans":
 		var a c12Ans
 		c.Decode(&a)
@@ -157,6 +163,11 @@ func c12Exec(run *ev.Run, c ev.Case) {
 				}
 			}
 		case "ans-list":
+			{
+				for auth := 4; auth < 64; auth++ {
+					c12UnknownAuth(run, byte(auth), []byte{1, 2, 4}[auth%3], 1)
+				}
+			}
 			// every ordered pair and some triples of the nine AES suites as the caller's list;
 			// the BMC answers with each listed suite and with unlisted ones
 			all := stdSuites()
@@ -209,6 +220,9 @@ func c12Exec(run *ev.Run, c ev.Case) {
 				for _, follow := range []bool{true, false} {
 					c12Answer(run, c12Ans{Proposal: b.Proposal, Answer: a, Follow: follow, ZeroLen: mask})
 					c12Answer(run, c12Ans{Proposal: b.Proposal, Answer: a, Follow: follow, ZeroLen: 7})
+					// the same answers on a connection that has been through a well-formed handshake
+					c12Answer(run, c12Ans{Proposal: b.Proposal, Answer: a, Follow: follow, ZeroLen: mask, Used: true})
+					c12Answer(run, c12Ans{Proposal: b.Proposal, Answer: b.Proposal, Follow: follow, ZeroLen: mask, Used: true})
 				}
 			}
 			// answers whose payload length byte is neither 0 nor 8: naming other algorithms, and
@@ -470,6 +484,57 @@ func c12Select(run *ev.Run, s c12Sel) {
 	}
 }
 
+// c12UnknownAuth: the caller's only suite names an authentication algorithm the library has no
+// implementation of (OEM or reserved numbers), and the BMC plays along: it confirms exactly that
+// suite and answers RAKP Message 1 with status OK. The library cannot compute the codes, so the
+// outcome is an error - not a session, and not a panic.
+func c12UnknownAuth(run *ev.Run, auth, integ, conf byte) {
+	run.Eval(1)
+	su := refbmc.Suite{Auth: auth, Integ: integ, Conf: conf}
+	cs := ev.MkCase("unknown-auth", su)
+	r := rng(int64(auth)<<8|int64(integ), "c12unknownauth")
+	cfg := defaultCfg(r)
+	e := NewEnv(cfg, memtr.Window)
+	e.Filter = func(n int, req, reply []byte) ([]byte, error) {
+		if len(req) < 24 {
+			return reply, nil
+		}
+		p := req[16:]
+		switch req[5] & 0x3f {
+		case 0x10:
+			return refbmc.RMCP(refbmc.SessHdr(0x11, 0, 0, refbmc.OpenRsp(p[0], 0, 4, uint32(p[4])|uint32(p[5])<<8|uint32(p[6])<<16|uint32(p[7])<<24, cfg.SID, su))), nil
+		case 0x12:
+			m := append([]byte{p[0], 0, 0, 0}, 1, 0, 0, 0)
+			m = append(m, rbytes(r, 16)...)
+			m = append(m, cfg.GUID[:]...)
+			m = append(m, rbytes(r, []int{0, 12, 16, 20, 32}[int(auth)%5])...)
+			return refbmc.RMCP(refbmc.SessHdr(0x13, 0, 0, m)), nil
+		case 0x14:
+			return refbmc.RMCP(refbmc.SessHdr(0x15, 0, 0, append([]byte{p[0], 0, 0, 0, 1, 0, 0, 0}, rbytes(r, 12)...))), nil
+		}
+		return reply, nil
+	}
+	ctx, cancel := e.LimitCtx(12)
+	defer cancel()
+	var sess *bmc.V2Session
+	var err error
+	pv, st := safe(func() {
+		sess, err = e.ST.NewV2Session(ctx, &bmc.V2SessionOpts{
+			SessionOpts:  bmc.SessionOpts{Username: cfg.Username, Password: cfg.Password, MaxPrivilegeLevel: ipmi.PrivilegeLevelAdministrator},
+			CipherSuites: []ipmi.CipherSuite{libSuite(su)},
+		})
+	})
+	desc := fmt.Sprintf("single preference %v (authentication algorithm %#x not implemented) confirmed by the BMC, RAKP Message 2 with status OK", su, auth)
+	run.Nontrivial(fmt.Sprintf("unknown-auth %v", su))
+	if pv != nil {
+		run.Violation("C12:panic:"+panicSite(st), fmt.Sprintf("%s: panic %v\n%s", desc, pv, trimStack(st)), cs, nil)
+		return
+	}
+	if err == nil || sess != nil {
+		run.Violation("C12:session-on-unknown-algorithm", fmt.Sprintf("%s: a session was returned", desc), cs, nil)
+	}
+}
+
 func c12Answer(run *ev.Run, a c12Ans) {
 	run.Eval(1)
 	cs := ev.MkCase("ans", a)
@@ -492,6 +557,23 @@ func c12Answer(run *ev.Run, a c12Ans) {
 		e.BMC.Cfg.Suites = stdSuites()
 		server := &refbmc.CipherSuiteServer{Channel: 1, Data: refbmc.EncodeSuiteRecords(recs)}
 		e.BMC.Handler = refbmc.Chain(server.Handle, refbmc.Fixed(6, 0x01, 0, []byte{0x20, 0x81, 0x03, 0x15, 0x02, 0xbf, 0x57, 0x01, 0x00, 0x34, 0x12}))
+	}
+	if a.Used {
+		pc, pcancel := e.LimitCtx(40)
+		ps, perr := e.ST.NewV2Session(pc, &bmc.V2SessionOpts{
+			SessionOpts:  bmc.SessionOpts{Username: cfg.Username, Password: cfg.Password, MaxPrivilegeLevel: ipmi.PrivilegeLevelAdministrator},
+			CipherSuites: prefs,
+		})
+		if perr == nil && a.ZeroLen%2 == 0 {
+			ps.Close(pc)
+		}
+		pcancel()
+		if perr != nil {
+			if a.Proposal.Integ != 0 && a.Proposal.Conf == 1 && a.Proposal.Auth <= 3 {
+				run.Violation("C12:confirmed-proposal-fails", fmt.Sprintf("preliminary handshake for %v: %v", a.Proposal, perr), cs, nil)
+			}
+			return
+		}
 	}
 	e.Filter = func(n int, req, reply []byte) ([]byte, error) {
 		if len(req) > 5 && req[5]&0x3f == 0x10 && len(reply) == 52 && reply[17] == 0 {
@@ -537,11 +619,18 @@ func c12Answer(run *ev.Run, a c12Ans) {
 			sess.GetDeviceID(c2)
 		}
 	})
-	desc := fmt.Sprintf("proposal %v (caller's list %v) answered %v (bmc follows: %v, zero-length payload mask %d, length byte %#x on mask %d)", a.Proposal, a.List, a.Answer, a.Follow, a.ZeroLen, a.LenVal, a.LenMask)
+	desc := fmt.Sprintf("proposal %v (caller's list %v) answered %v (bmc follows: %v, zero-length payload mask %d, length byte %#x on mask %d, connection used before: %v)", a.Proposal, a.List, a.Answer, a.Follow, a.ZeroLen, a.LenVal, a.LenMask, a.Used)
 	run.Nontrivial(fmt.Sprintf("ans %v %v %v %v %d %d/%d", a.Proposal, a.Answer, a.Follow, a.List, a.ZeroLen, a.LenMask, a.LenVal))
 	run.Event("handshakes", 1)
 	if pv != nil {
 		run.Violation("C12:panic:"+panicSite(st), fmt.Sprintf("%s: panic %v\n%s", desc, pv, trimStack(st)), cs, nil)
+		return
+	}
+	if a.Answer == a.Proposal && a.ZeroLen != 0 {
+		// the algorithm bytes behind a zero length byte are not part of the payload: nothing was confirmed on that axis
+		if err == nil {
+			run.Violation("C12:answer-not-checked:zero-length", fmt.Sprintf("%s: a session was returned although the answer's payload(s) have length 0 and so confirm nothing", desc), cs, nil)
+		}
 		return
 	}
 	if a.Answer == a.Proposal && a.LenMask != 0 {
